@@ -15,11 +15,13 @@ class MemoCache:
         self.w, self.L = w, L
         self.d = {}
         self.sets = 0
+        self.retry_flags = []  # (method, retry) of every call a decorator makes
 
     def _now(self):
         return self.w.time()
 
     def get(self, key, default=None, *a, expire_time=False, retry=False, **k):
+        self.retry_flags.append(('get', retry))
         ent = self.d.get(key)
         if ent is not None:
             val, exp = ent
@@ -28,14 +30,20 @@ class MemoCache:
         return (default, None) if expire_time else default
 
     def set(self, key, value, expire=None, *a, tag=None, retry=False, **k):
+        self.retry_flags.append(('set', retry))
         self.sets += 1
         self.d[key] = (value, None if expire is None else self._now() + expire)
         return True
 
-    def add(self, key, value, expire=None, *a, **k):
-        if self.get(key, default=self.L.core.ENOVAL) is not self.L.core.ENOVAL:
-            return False
-        return self.set(key, value, expire)
+    def add(self, key, value, expire=None, *a, retry=False, **k):
+        self.retry_flags.append(('add', retry))
+        n = len(self.retry_flags)
+        try:
+            if self.get(key, default=self.L.core.ENOVAL) is not self.L.core.ENOVAL:
+                return False
+            return self.set(key, value, expire)
+        finally:
+            del self.retry_flags[n:]
 
     def __enter__(self):
         return self
@@ -46,13 +54,13 @@ class MemoCache:
 
 class DjangoLike(MemoCache):
     def get(self, key, default=None, version=None, retry=False, **k):
-        return MemoCache.get(self, (key, version), default)
+        return MemoCache.get(self, (key, version), default, retry=retry)
 
     def set(self, key, value, timeout=None, version=None, tag=None, retry=False, **k):
         from django.core.cache.backends.base import DEFAULT_TIMEOUT
         if timeout == DEFAULT_TIMEOUT:
             timeout = 300
-        return MemoCache.set(self, (key, version), value, timeout)
+        return MemoCache.set(self, (key, version), value, timeout, retry=retry)
 
 
 def ob_memo(w, P):
@@ -154,6 +162,9 @@ def ob_memo(w, P):
     rs = [f(y, b=2) for _ in range(3)]
     cl.append(('C16', 'repeated calls with a keyword argument return its result', all(r == y * 10 + 2 for r in rs)))
     cl.append(('C16', 'every run of the function for that entry receives the keyword argument', len(calls) > n_kw and all(c == (y, 2) for c in calls[n_kw:])))
+    # a memoized call waits for a busy cache instead of failing or recomputing: every lookup and store asks for retry
+    cl.append(('C16,C14', 'every cache access of the wrapper waits for a busy lock (%s)' % sorted(set(f for f in mc.retry_flags if f[1] is not True)),
+               len(mc.retry_flags) > 0 and all(r is True for _, r in mc.retry_flags)))
     flag('nontrivial')
     return cl
 
